@@ -123,6 +123,10 @@ class Scenario:
             o["dlimit"] = dict(self.dlimit)
         self.o = o
         self.pair = wsx.Pair(sopts=sopts, copts=copts)
+        self.only_who = None
+        self.no_net = False
+        if self.profile == "c01" and not self.limit_who and not self.frame_limit and rng.random() < 0.15:
+            return self.setup_early()
         ok = self.pair.handshake()
         assert ok, "handshake failed"
         assert (self.pair.s._perMessageCompress is not None) == o["compress"], "compression negotiation mismatch"
@@ -137,6 +141,33 @@ class Scenario:
         self.pair.ct.read_pos = len(self.pair.ct.written)
         del self.pair.log[:]
         self.trace.append(dict(ev="open", compress=o["compress"], limit=o["limit"], mask=o["mask"], dlimit=o["dlimit"]))
+
+    def setup_early(self):
+        """the server starts talking as soon as it has accepted the request: its first messages reach the client in the
+        same read(s) as the 101 response"""
+        rng, o = self.rng, self.o
+        fw.settle()
+        self.pair.deliver("S")
+        fw.settle()
+        assert self.pair.s.state == wsx.WSP.STATE_OPEN, "server did not accept the request"
+        assert (self.pair.s._perMessageCompress is not None) == o["compress"], "compression negotiation mismatch"
+        resp = bytes(self.pair.st.written)
+        self.parse_pos["C"] = len(self.pair.ct.written)
+        self.parse_pos["S"] = resp.index(b"\r\n\r\n") + 4
+        self.trace.append(dict(ev="open", compress=o["compress"], limit=o["limit"], mask=o["mask"], dlimit=o["dlimit"]))
+        self.no_net, self.only_who = True, "S"
+        for _ in range(rng.randint(1, 4)):
+            self.op_send()
+        self.no_net = False
+        self.only_who = rng.choice([None, "C"])         # sometimes the server says nothing more afterwards
+        buf = self.pair.st.unread()
+        cuts = [rng.randint(1, len(buf) - 1) for _ in range(rng.choice([0, 0, 1, 2]))]
+        for a, b in zip([0] + sorted(cuts), sorted(cuts) + [len(buf)]):
+            if b > a:
+                self.pair.deliver("C", b - a)
+                fw.settle()
+        assert self.pair.c.state == wsx.WSP.STATE_OPEN, "handshake failed"
+        self.collect()
 
     def compression_other(self, sopts, copts, ext):
         """bzip2 / brotli with default parameters (generic offer -> accept -> response-accept through the extension map)"""
@@ -269,6 +300,8 @@ class Scenario:
     def op_send(self):
         rng = self.rng
         w = rng.choice(["C", "S"])
+        if self.only_who:
+            w = self.only_who
         if self.limit_who:
             w = self.limit_who          # the peer of a limited endpoint stays silent (its frames would hit the receive limit: C16 recv side)
         p = self.pair.proto(w)
@@ -312,7 +345,7 @@ class Scenario:
                 cuts = sorted(rng.randint(0, n) for _ in range(k - 1))
                 for a, b in zip([0] + cuts, cuts + [n]):
                     p.sendMessageFrame(payload[a:b], sync=rng.random() < 0.2)
-                    if rng.random() < 0.3:
+                    if rng.random() < 0.3 and not self.no_net:
                         self.net_step()
                 p.endMessage()
             else:
@@ -337,7 +370,7 @@ class Scenario:
                         if over and rest is not None and rest != -min(over, n - (pos + c)) and rest != -over:
                             self.problems.append(dict(scenario=self.sid if hasattr(self, "sid") else -1, problem="sendMessageFrameData overrun returned %r" % rest))
                         pos += c
-                    if rng.random() < 0.3:
+                    if rng.random() < 0.3 and not self.no_net:
                         self.net_step()
                 p.endMessage()
         except Exception as e:  # noqa
